@@ -1,0 +1,13 @@
+//go:build verif
+
+package msg
+
+// VerifYieldHook is installed by the verification harness in /verif: it is called at lock boundaries of the Box,
+// outside every critical section, so that a cooperative scheduler can interleave concurrent calls deterministically.
+var VerifYieldHook func(site string)
+
+func verifYield(site string) {
+	if h := VerifYieldHook; h != nil {
+		h(site)
+	}
+}
